@@ -1885,14 +1885,11 @@ impl ReManager {
             BaseRegLan::Empty => false,
             BaseRegLan::Epsilon => false,
             BaseRegLan::Range(set) => set.contains(c),
-            BaseRegLan::Concat(e1, e2) => {
-                self.start_char(e1, c) || e1.nullable && self.start_char(e2, c)
-            }
             BaseRegLan::Loop(e, _) => self.start_char(e, c),
-            BaseRegLan::Inter(args) => args.iter().all(|x| self.start_char(x, c)),
             BaseRegLan::Union(args) => args.iter().any(|x| self.start_char(x, c)),
-            BaseRegLan::Complement(_) => {
-                // expensive case
+            BaseRegLan::Concat(..) | BaseRegLan::Inter(..) | BaseRegLan::Complement(_) => {
+                // expensive case: the operands may each start with c while
+                // no string of the combination does
                 let d = self.deriv(e, c);
                 !self.is_empty_re(d)
             }
